@@ -46,7 +46,7 @@ def units_for(prop, tier, gdir):
         notes['containers'].append(cn)
         for fn in fns:
             notes['functions'].append(fn)
-            for mc in caps:
+            for mc in ([int(sp.funcs[fn].opts['quickcap'])] if tier == 'quick' and 'quickcap' in sp.funcs[fn].opts else caps):
                 to = int(sp.funcs[fn].opts.get('timeout', '1500' if tier == 'quick' else '3600'))
                 split = sp.funcs[fn].opts.get('split')
                 cases = [None] if not split else [(0, split), (1, '!(%s)' % split)]
